@@ -3,7 +3,7 @@
 (* application program run on a real SFTPClient against a real SFTPServer that         *)
 (* answers every request.  Record 1 describes the session, the others one call each:  *)
 (*   [op |-> "init", size]                    size of the file opened for reading      *)
-(*   [op |-> "seek", p] / "prefetch" (maxc) / "read" (n; at, k) /                      *)
+(*   [op |-> "seek", p, whence] / "prefetch" (maxc) / "read" (n; at, k) / "pause" /     *)
 (*   "readv" (chunks, maxc; res = Seq of <<at, k>>) / "write" (count) / "sync" /       *)
 (*   "closeW" (rejected = writes the server refused on that file) / "closeR" /         *)
 (*   "put" / "get" (a whole transfer; fault = what the server did to one chunk:        *)
@@ -30,7 +30,7 @@ R == T[l]
 RECURSIVE Subreqs(_)
 Subreqs(cs) == IF cs = <<>> THEN <<>> ELSE Split(Head(cs)[1], Head(cs)[2]) \o Subreqs(Tail(cs))
 \* some request the call plans (chunks split at Chunk) starts at or after EOF: the server answers it with an EOF status
-EofReq(cs) == \E i \in 1..Len(Subreqs(cs)) : Subreqs(cs)[i][1] >= size
+EofReq(cs) == LET sr == Subreqs(cs) IN \E i \in 1..Len(sr) : sr[i][1] >= size
 \* what distinguishes a finding: the first of these that applies
 \*   eof_request        the readv itself asks for a range at / past EOF
 \*   after_eof_request  an earlier readv on this file did
@@ -84,7 +84,8 @@ TNext ==
        THEN /\ size' = R.size /\ bad' = {} /\ key' = "init"
             /\ UNCHANGED <<pos, started, wrote, syncd, wraised, eofseen, shortseen>>
        ELSE /\ bad' = Clauses /\ key' = Key /\ UNCHANGED size
-            /\ pos' = CASE R.op = "seek" -> R.p
+            /\ pos' = CASE R.op = "seek" /\ R.out = "ok" ->
+                               (CASE R.whence = 0 -> R.p [] R.whence = 1 -> pos + R.p [] OTHER -> size + R.p)
                         [] R.op = "read" /\ R.out = "ok" -> pos + R.k
                         [] R.op = "readv" /\ R.res # <<>> -> R.chunks[Len(R.res)][1] + LastRes[2]
                         [] OTHER -> pos
